@@ -373,7 +373,7 @@ def run_case(ctx, c, reqs, pending, paths=('memory', 'eager', 'lazy')):
                 empty=c['empty'], residue=n % 8, small=n < 8, planes=P, segments=len(c['segs']), workers=c['workers'],
                 mfv=c['mfv'] if c['type'] == 'FRACTIONAL' else '-', bad=applied or '-',
                 outcome='ok' if seg is not None else 'refused')
-    margs = model_args(c, mask)
+    margs = model_args(c, keep)
     # ---- input must not be modified (also when the constructor raises)
     if not (mask.dtype == keep.dtype and np.array_equal(mask, keep)):
         ctx.fail(desc, {'what': 'constructor modified the caller\'s pixel_array', 'max_after': float(mask.max()),
